@@ -2,6 +2,7 @@ package main
 
 import (
 	"encoding/json"
+	"errors"
 	"fmt"
 	"time"
 
@@ -113,7 +114,7 @@ func (f *samplerFam) play(l *Line, out *rec) error {
 		}
 		zerolog.SetGlobalLevel(zerolog.Level(c.GL))
 	}
-	for _, raw := range l.Ops {
+	for opi, raw := range l.Ops {
 		var op samplerOp
 		if err := json.Unmarshal(raw, &op); err != nil {
 			return err
@@ -125,7 +126,7 @@ func (f *samplerFam) play(l *Line, out *rec) error {
 			out.emit(samplerOp{A: "Call", Lvl: op.Lvl, Now: op.Now, Adm: adm})
 		case "Log":
 			before := w.n
-			logger.WithLevel(zerolog.Level(op.Lvl)).Msg("x")
+			logVia(&logger, zerolog.Level(op.Lvl), opi)
 			out.emit(samplerOp{A: "Log", Lvl: op.Lvl, Now: op.Now, Adm: w.n == before+1})
 			if w.n > before+1 {
 				out.emit(map[string]interface{}{"a": "ExtraWrite", "n": w.n - before})
@@ -138,4 +139,62 @@ func (f *samplerFam) play(l *Line, out *rec) error {
 		}
 	}
 	return nil
+}
+
+// logVia sends one event of the given level through one of the entry points that exist for that level (rotating with the
+// position in the history): each consults the sampler exactly once per event.
+func logVia(l *zerolog.Logger, lvl zerolog.Level, i int) {
+	switch lvl {
+	case zerolog.DebugLevel:
+		switch i % 5 {
+		case 0:
+			l.Debug().Msg("x")
+		case 1:
+			l.Print("x")
+		case 2:
+			l.Printf("x%d", 1)
+		case 3:
+			l.Println("x")
+		default:
+			l.WithLevel(lvl).Msg("x")
+		}
+	case zerolog.TraceLevel:
+		if i%2 == 0 {
+			l.Trace().Msg("x")
+		} else {
+			l.WithLevel(lvl).Msg("x")
+		}
+	case zerolog.InfoLevel:
+		switch i % 3 {
+		case 0:
+			l.Info().Msg("x")
+		case 1:
+			l.Err(nil).Msg("x")
+		default:
+			l.WithLevel(lvl).Send()
+		}
+	case zerolog.WarnLevel:
+		if i%2 == 0 {
+			l.Warn().Msgf("x%d", 1)
+		} else {
+			l.WithLevel(lvl).Msg("x")
+		}
+	case zerolog.ErrorLevel:
+		switch i % 3 {
+		case 0:
+			l.Error().Msg("x")
+		case 1:
+			l.Err(errors.New("e")).Msg("x")
+		default:
+			l.WithLevel(lvl).Msg("x")
+		}
+	case zerolog.NoLevel:
+		if i%2 == 0 {
+			l.Log().Msg("x")
+		} else {
+			l.WithLevel(lvl).Msg("x")
+		}
+	default:
+		l.WithLevel(lvl).Msg("x")
+	}
 }
